@@ -222,6 +222,151 @@ func TestC16(t *testing.T) {
 		}
 	}
 
+	// ---- the Msg servers the app registers (captured by re-running its RegisterServices against a recorder)
+	servers, _, capRes := captureServers(app.RegisterServices)
+	if capRes != "" {
+		out.Violate("re-running the app's RegisterServices against a recording configurator failed: " + capRes)
+	}
+	{
+		regImpl := map[string]string{}
+		if fp := os.Getenv("VERIF_FACTS"); fp != "" {
+			if bz, err := os.ReadFile(fp); err == nil {
+				var facts map[string]json.RawMessage
+				_ = json.Unmarshal(bz, &facts)
+				var regs []map[string]string
+				_ = json.Unmarshal(facts["C16.registrations"], &regs)
+				for _, r := range regs {
+					regImpl[r["service"]] = r["impl"]
+				}
+			}
+		}
+		implTypes := map[string]string{}
+		for _, u := range authMsgs {
+			sv, ok := servers[u]
+			if !ok {
+				out.Violate("routed authority message " + u + " is served by no Msg service the app's RegisterServices registers (captured " + fmt.Sprint(len(servers)) + " methods)")
+				continue
+			}
+			implTypes[u] = sv.implType
+			if k, fx := fxURL[u]; fx && len(regImpl) > 0 {
+				svc := k[:strings.LastIndex(k, ".")]
+				if want, ok := regImpl[svc]; !ok {
+					out.Violate("the regenerated registrations list no RegisterMsgServer site for service " + svc + " (message " + k + ")")
+				} else if want != sv.implType {
+					out.Violate("the running app serves " + k + " with a value of type " + sv.implType + ", the regenerated registrations say " + want)
+				}
+			}
+		}
+		out.Stats.Extra["registered_server_types"] = implTypes
+	}
+	// ---- the dependency handlers the translator read from the module cache: every routed authority message that is not
+	// an fx-core type must be among them, served by the type and method it found
+	depImpl := map[string][2]string{} // Go message type -> (receiver type, method)
+	if fp := os.Getenv("VERIF_FACTS"); fp != "" {
+		if bz, err := os.ReadFile(fp); err == nil {
+			var facts map[string]json.RawMessage
+			_ = json.Unmarshal(bz, &facts)
+			var dis []map[string]string
+			if json.Unmarshal(facts["C16.depImpls"], &dis) == nil && len(dis) > 0 {
+				for _, d := range dis {
+					depImpl[d["msg"]] = [2]string{d["recv"], d["method"]}
+				}
+				for _, u := range authMsgs {
+					if _, fx := fxURL[u]; fx {
+						continue
+					}
+					pm, _ := app.InterfaceRegistry().Resolve(u)
+					k := msgKey(pm.(sdk.Msg))
+					d, ok := depImpl[k]
+					if !ok {
+						out.Violate("routed authority message " + u + " (" + k + ") of a dependency has no handler in the regenerated dependency table")
+						continue
+					}
+					if sv, ok := servers[u]; ok {
+						if sv.method.MethodName != d[1] {
+							out.Violate("dependency message " + k + " is served by method " + sv.method.MethodName + ", the regenerated table says " + d[1])
+						}
+						if !strings.HasPrefix(sv.implType, "x/") && sv.implType != d[0] {
+							out.Violate("dependency message " + k + " is served by a value of type " + sv.implType + ", the regenerated table says " + d[0])
+						}
+					}
+				}
+			}
+		}
+	}
+
+	// ---- who the running codec takes as the signer of every routed authority message: the account the authority
+	// decodes to, and nothing else (the .proto signer options are regenerated into Gen/C16Proto.lean)
+	{
+		protoSigners := map[string][]string{}
+		if fp := os.Getenv("VERIF_FACTS"); fp != "" {
+			if bz, err := os.ReadFile(fp); err == nil {
+				var facts map[string]json.RawMessage
+				_ = json.Unmarshal(bz, &facts)
+				_ = json.Unmarshal(facts["C16.protoSigners"], &protoSigners)
+			}
+		}
+		probe := helpers.GenAccAddress()
+		for _, u := range authMsgs {
+			pm, _ := app.InterfaceRegistry().Resolve(u)
+			m := pm.(sdk.Msg)
+			setAuthority(m, probe.String())
+			signers, _, err := app.AppCodec().GetMsgV1Signers(m)
+			if err != nil || len(signers) != 1 || !probe.Equals(sdk.AccAddress(signers[0])) {
+				out.Violate(fmt.Sprintf("the running codec does not take the authority of %s as its only signer (signers %x, err %v)", u, signers, err))
+			}
+			out.Count("signer-is-authority")
+			if _, fx := fxURL[u]; fx && len(protoSigners) > 0 {
+				if sg, ok := protoSigners[strings.TrimPrefix(u, "/")]; !ok || len(sg) != 1 || sg[0] != "authority" {
+					out.Violate(fmt.Sprintf("the regenerated .proto facts do not declare `authority` as the signer of %s: %v", u, sg))
+				}
+			}
+		}
+	}
+	// ---- the authority every keeper of the running app holds (any keeper field with a GetAuthority method)
+	{
+		kv := reflect.ValueOf(app.AppKeepers)
+		if kv.Kind() == reflect.Ptr {
+			kv = kv.Elem()
+		}
+		n := 0
+		for i := 0; kv.Kind() == reflect.Struct && i < kv.NumField(); i++ {
+			f := kv.Field(i)
+			if !f.CanInterface() {
+				continue
+			}
+			cands := []reflect.Value{f}
+			if f.CanAddr() {
+				cands = append(cands, f.Addr())
+			}
+			for _, v := range cands {
+				mth := v.MethodByName("GetAuthority")
+				if !mth.IsValid() || mth.Type().NumIn() != 0 || mth.Type().NumOut() != 1 {
+					continue
+				}
+				var got string
+				if res := hx.Try(func() error {
+					r := mth.Call(nil)[0].Interface()
+					if st, ok := r.(fmt.Stringer); ok {
+						got = st.String()
+					} else {
+						got = fmt.Sprint(r)
+					}
+					return nil
+				}); res != "ok" {
+					break
+				}
+				n++
+				out.Count("keeper-authority-checked:" + kv.Type().Field(i).Name)
+				if got != gov {
+					out.Violate("keeper " + kv.Type().Field(i).Name + " of the running app holds authority " + got + ", not the governance module account " + gov)
+				}
+				break
+			}
+		}
+		out.Stats.Extra["keepers_with_authority_getter"] = n
+	}
+
 	// ---- valid payload builders for the fx-core messages
 	// a contract that exists, so that a governance-authorised MsgCallContract really takes effect
 	callee := helpers.GenHexAddress()
@@ -287,6 +432,15 @@ func TestC16(t *testing.T) {
 
 	upper := strings.ToUpper
 	moduleNames := []string{"erc20", "eth", "bsc", "tron", "distribution", "evm", "bonded_tokens_pool", "mint", "fee_collector", "crosschain", "gov", "polygon", "avalanche", "arbitrum", "optimism", "layer2", "migrate", "transfer", "feemarket"}
+	for _, sn := range spaceNames { // every store key of the running app names a module
+		known := false
+		for _, mn := range moduleNames {
+			known = known || mn == sn
+		}
+		if !known {
+			moduleNames = append(moduleNames, sn)
+		}
+	}
 	govBz := authtypes.NewModuleAddress(govtypes.ModuleName)
 	modCursor := map[string]int{}
 	candidates := func(rng *rand.Rand, m sdk.Msg) []cand {
@@ -306,7 +460,13 @@ func TestC16(t *testing.T) {
 			{"gov", gov}, {"GOV-upper", upper(gov)}, {"module", other}, {"module", other2}, {"module-upper", upper(other2)},
 			{"account", acc}, {"account-upper", upper(acc)},
 		}
-		// every name and every address in the payload: the module account of that name / that address itself
+		// the module account of every name the message's own type URL is made of (a handler that also lets "its own"
+		// module through: /cosmos.upgrade.v1beta1.MsgCancelUpgrade -> the upgrade module account)
+		for _, seg := range strings.FieldsFunc(sdk.MsgTypeURL(m), func(r rune) bool { return r == '/' || r == '.' }) {
+			if a := authtypes.NewModuleAddress(seg).String(); a != gov && seg == strings.ToLower(seg) {
+				cs = append(cs, cand{"own-module", a})
+			}
+		}
 		ps := payloadStrings(m)
 		rng.Shuffle(len(ps), func(i, j int) { ps[i], ps[j] = ps[j], ps[i] })
 		if len(ps) > 5 {
@@ -385,6 +545,7 @@ func TestC16(t *testing.T) {
 		return "-"
 	}
 
+	tw := newTxWorld(s, out, gov)
 	proposer := helpers.GenAccAddress()
 	s.MintToken(proposer, sdk.NewCoin(fxtypes.DefaultDenom, sdkmath.NewInt(1e18).MulRaw(1e9)))
 
@@ -438,7 +599,7 @@ func TestC16(t *testing.T) {
 	out.Stats.Extra["distinct_payloads_effective_under_governance"] = effCount
 	out.Stats.Extra["payload_variants_tried"] = tried
 
-	n := hx.N(24, 400)
+	n := hx.N(24, 200)
 	for it := 0; it < n; it++ {
 		out.Reset()
 		envLines()
@@ -542,6 +703,88 @@ func TestC16(t *testing.T) {
 				}
 			}
 		}
+		// ---------------- handler level: the registered Msg servers called directly (no ValidateBasic, no branch), and the
+		// per-chain crosschain servers behind the crosschain router
+		hmsgs := append([]sdk.Msg{}, msgs...)
+		for _, m := range valid(rng)[:2] { // chain names the crosschain router has no route for
+			if f := reflect.ValueOf(m).Elem().FieldByName("ChainName"); f.IsValid() {
+				f.SetString(hx.Pick(rng, []string{"", "gov", "nosuch", "ETH", "erc20", "ethx", "et"}))
+				hmsgs = append(hmsgs, m)
+			}
+		}
+		for mi, m := range hmsgs {
+			sv, ok := servers[sdk.MsgTypeURL(m)]
+			if !ok {
+				continue
+			}
+			setAuthority(m, gov)
+			payloadOk := true
+			if v, ok := m.(sdk.HasValidateBasic); ok && v.ValidateBasic() != nil {
+				payloadOk = false
+			}
+			govOk := 0
+			if payloadOk {
+				if gerr, gp, _ := route(m); gerr == nil && gp == "" {
+					govOk = 1
+				}
+			}
+			lists := nonEmptyLists(m)
+			cs := candidates(rng, m)
+			if (mi+it)%3 == 0 || !payloadOk {
+				cs = append(cs, junk(rng)...)
+			} else {
+				j := junk(rng)
+				cs = append(cs, j[1], j[rng.Intn(len(j))], j[rng.Intn(len(j))]) // always the 0x spelling of the governance account
+			}
+			type target struct {
+				T    string
+				impl interface{}
+			}
+			targets := []target{{sv.implType, sv.impl}}
+			chain := chainOf(m)
+			_, chainMsg := m.(interface{ GetChainName() string })
+			hasRoute := chainMsg && app.CrosschainRouterKeeper.Router().HasRoute(chain)
+			if hasRoute {
+				ps := app.CrosschainRouterKeeper.Router().GetRoute(chain).MsgServer
+				targets = append(targets, target{typeKey(ps), ps})
+			}
+			for ti, tg := range targets {
+				for _, c := range cs {
+					setAuthority(m, c.val)
+					cctx, _ := base.CacheContext()
+					var err error
+					res := hx.Try(func() error { err = direct(cctx, sv, tg.impl, m); return nil })
+					changed := hx.DiffDump(baseDump, hx.DumpAll(cctx, keys))
+					obs := "past-guard"
+					switch {
+					case res != "ok":
+						out.Count("hcall-panic:" + msgKey(m)) // a zero payload under the governance authority: fails after the guard
+					case err == nil:
+					case ti == 0 && chainMsg && !hasRoute:
+						obs = "rejected:no-route"
+					case errors.Is(err, govtypes.ErrInvalidSigner):
+						obs = "rejected:signer"
+					}
+					if strings.HasPrefix(obs, "rejected") && len(changed) > 0 {
+						obs = "rejected-but-changed:" + strings.Join(changed, ",")
+					}
+					out.Emit(fmt.Sprintf("hcall %s %s %s %s %s %d %s", tg.T, msgKey(m), hx.HexS(gov), dash(hx.HexS(c.val)), chain, govOk, lists), obs)
+					out.Count("hcorr:" + c.kind + ":" + obs)
+					out.Nontrivial("h|" + tg.T + "|" + msgKey(m) + "|" + c.kind + "|" + obs)
+					// property monitor, handler level: only the canonical spelling of the governance address or a case variant
+					// of it (what the weakest comparison in use, strings.EqualFold, identifies with it) may get past the handler
+					// (only for the REGISTERED server: the per-chain servers behind the crosschain router are internal — a guard
+					// hoisted to the router entry would be just as good; they are compared with the model, not monitored)
+					if err == nil && res == "ok" && ti == 0 {
+						if !strings.EqualFold(gov, c.val) {
+							out.Violate(fmt.Sprintf("handler level: privileged message %s delivered directly to the registered Msg server %s (the router's ValidateBasic bypassed) took effect with non-governance authority kind=%s (%q)", msgKey(m), tg.T, c.kind, c.val))
+						} else if !foldEq(gov, c.val) {
+							out.Count("handler-level:non-ascii-case-fold-spelling-accepted:" + msgKey(m))
+						}
+					}
+				}
+			}
+		}
 		// ---------------- bech32 / EqualFold on mutated spellings
 		for k := 0; k < 40; k++ {
 			sp := mutate(rng, gov, prefix, govBz)
@@ -590,12 +833,67 @@ func TestC16(t *testing.T) {
 					} else if len(changed) > 0 {
 						out.Count("mon-rejected-after-writes:" + u)
 					}
+					// the same message delivered to the registered Msg server directly
+					if sv, ok := servers[u]; ok {
+						hctx, _ := base.CacheContext()
+						var herr error
+						hres := hx.Try(func() error { herr = direct(hctx, sv, sv.impl, m); return nil })
+						out.Stats.Evaluations++
+						out.Count("hmon:" + c.kind)
+						if hres != "ok" {
+							out.Count("hmon-panic:" + u)
+						} else if d, dep := depImpl[msgKey(m)]; dep && !strings.HasSuffix(u, "MsgExecLegacyContent") {
+							// correspondence with the model of the regenerated dependency handler
+							obs := "rejected"
+							if herr == nil {
+								obs = "past-guard"
+							} else if ch := hx.DiffDump(baseDump, hx.DumpAll(hctx, keys)); len(ch) > 0 {
+								obs = "rejected-but-changed:" + strings.Join(ch, ",")
+							}
+							out.Emit(fmt.Sprintf("dcall %s %s %s %s", d[0], d[1], hx.HexS(gov), dash(hx.HexS(c.val))), obs)
+							out.Count("dcall:" + obs)
+						}
+						if hres == "ok" && herr == nil && !strings.EqualFold(gov, c.val) {
+							out.ViolateWith(fmt.Sprintf("handler level: privileged message %s delivered directly to the registered Msg server %s took effect with non-governance authority kind=%s (%q)", u, sv.implType, c.kind, c.val),
+								[]string{"# monitor: " + sv.service + "/" + sv.method.MethodName + " on " + sv.implType + " with Authority=" + fmt.Sprintf("%q", c.val) + " returned no error"})
+						}
+					}
 				}
 			}
 		}
 		// ---------------- raw store compare-and-set sequences, then proposals on the same scratch state
 		cur := casSeq(s, out, rng, gov, junk(rng))
 		propSeq(s, out, rng, gov, proposer, cur)
+		// ---------------- who has to have signed: signed transactions through runTx, MsgExec, governance proposals
+		{
+			var cases []txCase
+			pool := valid(rng)
+			if it%4 == 3 {
+				pool = append(pool, zeros()...)
+			}
+			for j := 0; j < 3; j++ {
+				m := pool[(it*3+j)%len(pool)]
+				setAuthority(m, gov)
+				tc := txCase{m: m, payloadOk: true, chain: chainOf(m), lists: nonEmptyLists(m)}
+				if v, ok := m.(sdk.HasValidateBasic); ok && v.ValidateBasic() != nil {
+					tc.payloadOk = false
+				}
+				if tc.payloadOk {
+					cctx, _ := s.Ctx.CacheContext()
+					var gerr error
+					if res := hx.Try(func() error { _, gerr = app.MsgServiceRouter().Handler(m)(cctx, m); return nil }); res == "ok" && gerr == nil {
+						tc.govOk = 1
+					}
+				}
+				cases = append(cases, tc)
+			}
+			other := authtypes.NewModuleAddress(moduleNames[it%len(moduleNames)]).String()
+			if other == gov {
+				other = authtypes.NewModuleAddress("erc20").String()
+			}
+			tw.txStream(rng, cases, junk(rng), other)
+			tw.propStream(rng, cases[:2], junk(rng), other)
+		}
 	}
 }
 
